@@ -7,6 +7,11 @@ V = os.path.dirname(os.path.dirname(os.path.abspath(__file__)))
 TECH = "TLA+ specification checked with TLC; conformance by replaying TLC-enumerated scenarios into the library and validating the recorded traces against the specification with TLC (trace spec)"
 
 CHECKS = {
+ "C02": ("4 C02", "AidlParse.ParseToks is the grammar as a deterministic tree builder over the NON-trivia pieces (layout invariance is a theorem of the specification); every Add event carries its document as pieces and the trace spec requires the parse-stage tree to mirror the specification's tree node by node (names, kinds, type structure, directions, optional names, oneway flags, transact codes, values, annotations), for TLC-enumerated family documents and rich generated documents under many layouts."),
+ "C03": ("4 C03", "MC_Slots: TLC enumerates every token string up to length 2 (quick) / 3 (thorough) over 34 terminals + a 33-bit INTEGER in 16 syntactic slots and decides each with the specification's tree builder; the trace spec re-derives the verdict from the pieces and demands tree + no syntax diagnostic iff well-formed, at least one Error otherwise, no parse-stage diagnostic dropped by validation, no keyword / reserved word among the stored identifiers; plus token-mutated rich documents."),
+ "C04": ("4 C04", "AidlLayout computes every position from the pieces (UTF-8 offsets, line, grapheme-cluster column) and the expected name / full ranges from the token indices of AidlParse; the trace spec checks exactness, the allowed start / end sets, nesting, sibling order and well-formedness of every range in trees, diagnostics and related infos, the one-token rule for syntax diagnostics and the first-offending-token rule, on well-formed and malformed inputs."),
+ "C18": ("4 C18", "AidlLayout.DocFor (which doc-comment piece documents which construct) and DocText (normalisation of a structured body); documents with doc comments of all decorations, LF / CRLF, non-ASCII words, ordinary comments in between, docs at arbitrary gaps; the doc field of every documentable node is compared."),
+ "C20": ("4 C20", "Error points are reached through MC_Slots (TLC-enumerated token strings per slot, decided by the specification's tree builder) and token-mutated documents; for every syntax diagnostic the expectation vector logged by the hook must be named exactly by the message (set equality over the 34-terminal vocabulary). The pinned tree violates this in one precisely described way, recorded in known_findings.json (C20-penultimate-dropped); any other discrepancy is a VIOLATION."),
  "C19": ("4 C19", "RoundTrip is an identity step of the specification (the thinnest use of the model, stated as such in DESIGN.md): the specification supplies the enumeration of the tree space (families dir / ow / sym / cont / res: every resolved kind, direction, oneway combination, nesting) and the requirement; the trace spec compares the field-by-field projection of the tree re-read from RON with the projection before, at parse stage and after validation, and Rust's == as logged."),
  "C15": ("4 C15", "AidlSymbols.Walk / FilterPaths / FindPath / WalkTypesPaths state the visiting order (array element before the array, any depth) and the filter / find semantics; WalkCoversTree (every node exactly once) is evaluated on every judged tree; TLC enumerates family 'sym'; the harness identifies every delivered reference by pointer identity and the trace spec compares sequences for the three filter levels and the predicates k-th / class / name."),
  "C16": ("4 C16", "AidlSymbols.LookupPath (first symbol in traversal order whose reported name range contains the position, inclusive at both ends) is compared with find_symbol_at_line_col at EVERY (line, column) of every rendered document of family 'sym' and of random projects, for the three filter levels."),
